@@ -4,6 +4,10 @@ import json, os
 here = os.path.dirname(os.path.abspath(__file__))
 root = os.path.dirname(here)
 claims = json.load(open(os.path.join(here, "claims.json")))
+# hook commits: everything committed to /repo after the pinned snapshot that is not a "fix:" commit
+import subprocess
+log = subprocess.run(["git", "-C", "/repo", "log", "--reverse", "--format=%H %s", "f430c3d..HEAD"], capture_output=True, text=True).stdout
+claims["source_commits"] = [l.split()[0] for l in log.splitlines() if l and not l.split(" ", 1)[1].startswith("fix:")]
 props = [json.loads(l)["id"] for l in open(os.path.join(root, "properties.jsonl"))]
 checks = []
 for pid in props:
